@@ -239,7 +239,6 @@ func cmdSessions(args []string) {
 	maxSched := fs.Int("maxsched", 200, "schedules per pair")
 	race := fs.Bool("race", true, "build the context driver with -race")
 	caseFile := fs.String("cases", "", "cases JSON (replay)")
-	nprobe := fs.Int("nprobe", 2, "counter grammars with abandoning actions")
 	nsoak := fs.Int("nsoak", 2, "cases that get a soak history")
 	soaklen := fs.Int("soaklen", 12000, "length of the soak history")
 	fs.Parse(args)
@@ -269,8 +268,8 @@ func cmdSessions(args []string) {
 	}
 	if *caseFile == "" {
 		rp := rand.New(rand.NewSource(p.seed*13 + 1))
-		for i := 0; i < *nprobe; i++ {
-			cases = append(cases, GenSessionProbe(rp, fmt.Sprintf("probe-%d-%d", p.seed, i)))
+		for i := 0; i < 2; i++ { // counter grammars with abandoning actions
+			cases = append(cases, GenSessionProbe(rp, fmt.Sprintf("sprobe-%d-%d", p.seed, i)))
 		}
 	}
 	var kept []*Case
